@@ -11,6 +11,7 @@ import Mashu.Quote
 import Mashu.Discr
 import Mashu.Cache
 import Mashu.Lazy
+import Mashu.Share
 import Mashu.Generated
 open Lean
 
@@ -264,6 +265,34 @@ def dispatchLazy (j : Json) : Except String Json := do
   | some st => pure (Json.mkObj [("impl", Json.arr ((Lazy.run T k 8 st evs).map ofO).toArray),
                                  ("spec", Json.arr ((Lazy.runSpec k r0 evs).map ofO).toArray)])
 
+/-- C18: which argument objects the serialized result refers to -/
+partial def toSV (j : Json) : Except String Share.SV := do
+  match j with
+  | .arr a =>
+    match a[0]! with
+    | .str "atom" => pure .atom
+    | .str "box" => do
+        let id ← (match a[1]! with | .num n => pure n.mantissa.toNat | _ => throw "bad id")
+        let items ← (← arr a[3]!).toList.mapM toSV
+        pure (.box id (← str a[2]!) items)
+    | .str "kv" => do
+        let id ← (match a[1]! with | .num n => pure n.mantissa.toNat | _ => throw "bad id")
+        let kvs ← (← arr a[3]!).toList.mapM (fun p => do
+          let p ← arr p
+          pure ((← toSV p[0]!), (← toSV p[1]!)))
+        pure (.kv id (← str a[2]!) kvs)
+    | _ => throw "bad SV"
+  | _ => throw "bad SV"
+
+def dispatchShare (j : Json) : Except String Json := do
+  let ty ← toTy (j.getObjValD "ty")
+  let v ← toSV (j.getObjValD "value")
+  let nj := j.getObjValD "no_copy"
+  let N : Share.NoCopy := { list := getB nj "list", set := getB nj "set", frozenset := getB nj "frozenset", deque := getB nj "deque",
+                            dict := getB nj "dict", odict := getB nj "odict", counter := getB nj "counter", mproxy := getB nj "mproxy", ddict := getB nj "ddict" }
+  let ids := Share.refIds (Share.packS N ty v)
+  pure (Json.mkObj [("shared", Json.arr (ids.map (fun n => Json.num (JsonNumber.fromNat n))).toArray)])
+
 def natList (j : Json) : Except String (List Nat) := do
   (← arr j).toList.mapM (fun x => match x with
     | .num n => if n.exponent == 0 && n.mantissa ≥ 0 then pure n.mantissa.toNat else throw "bad code point"
@@ -300,6 +329,7 @@ def dispatch (j : Json) : Except String Json := do
   | "discr" | "discrnf" => dispatchDiscr op j
   | "cache" | "merge" => dispatchCache op j
   | "lazy" => dispatchLazy j
+  | "share" => dispatchShare j
   | _ => throw s!"unknown op {op}"
 
 end Mashu
